@@ -133,6 +133,12 @@ fn main() {
     let started = Instant::now();
     let report: Report = (prop.run)(&cfg, &sink);
     let wall_s = started.elapsed().as_secs_f64();
+    // Errors of the library runner itself (an unreachable block-map order, an unreadable
+    // diagnostic) must never pass for an error of the subject.
+    let runner_errors = librun::MACHINERY_ERRORS.load(std::sync::atomic::Ordering::Relaxed);
+    if runner_errors > 0 {
+        sink.machinery(format!("the library runner reported {runner_errors} machinery-stage errors (block-map order not reachable or diagnostic not readable)"));
+    }
 
     // Classify failures against the committed known-findings file (never written at run time).
     let known = load_known(&cfg, &id);
